@@ -26,10 +26,10 @@ PROFILES = {
     "C03": ["mixed", "open", "maxfails", "happy", "cancel"],
     "C04": ["variants", "mixed", "cancel", "retract"],
     "C05": ["variants", "mn", "retract", "time", "mixed", "cancel", "variants2", "timeretract"],
-    "C06": ["retract", "loss", "mixed", "variants"],
+    "C06": ["retract", "loss", "mixed", "variants", "orphan"],
     "C07": ["loss", "mn", "mixed", "maxfails"],
     "C08": ["cancel", "retract", "mixed", "open", "mn", "retract2"],
-    "C09": ["mixed", "retract", "cancel", "loss", "maxfails", "open", "stream", "mn", "time", "variants", "timeretract", "retract2", "variants2", "bigbody", "waiters", "blocked"],
+    "C09": ["mixed", "retract", "cancel", "loss", "maxfails", "open", "stream", "mn", "time", "variants", "timeretract", "retract2", "variants2", "bigbody", "waiters", "blocked", "orphan"],
     "C13": ["open", "stream", "maxfails", "mixed", "cancel", "waiters"],
     "C14": ["maxfails", "mixed"],
 }
